@@ -46,6 +46,14 @@ theorem C08_offending (p : PduResp) :
     have : ¬ (1 ≤ p.errorIndex ∧ p.errorIndex ≤ p.varbinds.length) := by omega
     simp [this]
 
+/-- The rule that picks the offending binding is the one in the source: the condition under which
+    `PDU.decode_raw` assigns `varbinds[error_index.value - 1].oid` (translated from the working tree
+    on every run, `Gen.errorIndexInRange`) is exactly the model's `1 ≤ error-index ≤ #bindings`. -/
+theorem C08_index_rule (p : PduResp) :
+    Gen.errorIndexInRange p.errorIndex p.varbinds.length = true ↔
+      (1 ≤ p.errorIndex ∧ p.errorIndex ≤ p.varbinds.length) := by
+  simp [Gen.errorIndexInRange]
+
 /-- A non-zero error-status never yields data, for every protocol version, whatever the other
     fields (request id, community, version, bindings) are. -/
 theorem C08_never_data (proto : Proto) (rid : Int) (m : RespMsg) (p : PduResp)
